@@ -14,7 +14,7 @@ func BuildErrClass(out string) string {
 		return "unknown"
 	}
 	s := m[1]
-	if strings.Contains(s, "cannot find module providing package") || strings.Contains(s, "no required module provides package") || strings.Contains(s, "is not in std") {
+	if strings.Contains(s, "cannot find module providing package") || strings.Contains(s, "no required module provides package") || strings.Contains(s, "is not in std") || strings.Contains(s, "invalid import path") || strings.Contains(s, "malformed import path") {
 		return "unresolved-import"
 	}
 	s = regexp.MustCompile(`\b[A-Za-z_][A-Za-z0-9_]*\.[A-Za-z_][A-Za-z0-9_.]*`).ReplaceAllString(s, "X")
